@@ -136,33 +136,14 @@ End Spec.
 
 (* ---- what `Matcher.match` returns ---------------------------------------
    None when the path does not match, otherwise the dictionary of the matched
-   variables and wildcards; [pmatch] gives the number of its entries.
-   `_filter` tests the dictionary for TRUTH (`any(p.match(..))`,
-   `not rule["path"].match(..)`): an empty dictionary -- a pattern without
-   variables or wildcards -- counts as "no match" there, while the documented
-   matching (and ProjectFiles, which tests `is not None`) counts it as a match. *)
+   variables and wildcards; [pmatch] gives the number of its entries (0 for a
+   pattern without variables or wildcards).  `_filter` compares the result
+   with None, so [matches] is "Some". *)
 Section Dict.
 Variables (matcher locale file : Type).
 Variable pmatch : matcher -> locale -> file -> option nat.
 
-Definition code_matches (m : matcher) (l : locale) (f : file) : bool :=
-  match pmatch m l f with Some (S _) => true | _ => false end.
 Definition doc_matches (m : matcher) (l : locale) (f : file) : bool :=
   match pmatch m l f with Some _ => true | None => false end.
-
-Definition rule_matchers (rs : list (rawrule matcher)) : list matcher :=
-  flat_map (fun r => paths_of _ (rr_path _ r)) rs.
-
-Fixpoint raw_matchers (r : rawconfig matcher locale) : list matcher :=
-  match r with
-  | mkrawc _ _ _ paths rules children excludes =>
-      map (p_l10n _ _) paths ++ rule_matchers rules ++
-      flat_map raw_matchers children ++ flat_map raw_matchers excludes
-  end.
-
-(* the negation of the finding "literal-path-empty-dict": no pattern of the
-   project matches this file with an empty dictionary *)
-Definition dicts_nonempty (r : rawconfig matcher locale) (l : locale) (f : file) : bool :=
-  forallb (fun m => match pmatch m l f with Some O => false | _ => true end) (raw_matchers r).
 
 End Dict.
